@@ -42,7 +42,7 @@ ASSUMPTIONS = [
     "the C-level part of defaultdict.__missing__ (store after the factory returned) is atomic, which holds under the GIL",
     "a thread parked on `with <lock>:` while the lock is held is treated as not enabled",
 ]
-OUTSIDE = ["bytecode-level preemption finer than line events", "the callback thread of subscribe(callback=...)", "__aiter__", "C14.S: more than P preemptions (quick 2, thorough 3); C14.B: runs longer than the step bound K (excluded by the unwinding query), scenarios other than the listed ones"]
+OUTSIDE = ["bytecode-level preemption finer than line events", "the callback thread of subscribe(callback=...) in C14.B (C14.S runs it as a scheduled worker in the cb-* scenarios)", "__aiter__", "C14.S: more than P preemptions (quick 2, thorough 3); C14.B: runs longer than the step bound K (excluded by the unwinding query), scenarios other than the listed ones"]
 FILES = ("semantiva/execution/transport/in_memory.py",)
 
 # scenario -> list of thread programs; ("pub", channel, [payloads]) | ("sub", pattern)
@@ -62,6 +62,15 @@ SCENARIOS: Dict[str, List[Tuple]] = {
     # a publisher that returns to the channel it used last while another publisher uses a different channel
     "2pub-two-channels-repeat": [("pub", "jobs.a", ["a0", "a1"]), ("pub", "jobs.b", ["b0"])],
 }
+
+
+# callback subscriptions: ("cbrun", pattern) is the body of the thread that subscribe(pattern, callback=...) starts (the
+# subscribe call itself is made in the set-up phase with in_memory.threading.Thread replaced by a capturing shim, so that
+# the runner becomes a worker of the line scheduler instead of a free-running thread); ("close", j) calls close() on the
+# subscription object of program j.  Only C14.S runs these (the C14.B translator does not model closures/threads).
+CB_SCENARIOS = ("cb-runner+close-prefilled", "cb-runner+close+pub")
+SCENARIOS["cb-runner+close-prefilled"] = [("pre", "jobs.1", ["p1", "p2"]), ("cbrun", "jobs.1"), ("close", 0)]
+SCENARIOS["cb-runner+close+pub"] = [("pre", "jobs.1", ["p1"]), ("cbrun", "jobs.*"), ("close", 0), ("pub", "jobs.1", ["c1"])]
 
 
 def _threads(name: str) -> List[Tuple]:
@@ -89,8 +98,38 @@ def run_scenario(name: str, choose, record: Dict[str, Any]):
             published.append((-1, p[1], payload))
     delivered: Dict[int, List[Any]] = {}
     ls = LineScheduler(FILES)
+    subs: Dict[int, Any] = {}
     for i, p in enumerate(prog):
-        if p[0] == "pub":
+        if p[0] == "cbrun":
+            import threading as _real_threading
+            import types
+
+            import semantiva.execution.transport.in_memory as _im
+
+            delivered[i] = []
+            captured: List[Any] = []
+
+            class _CapturedThread:
+                def __init__(self, target=None, daemon=None, **kw):
+                    captured.append(target)
+
+                def start(self):
+                    pass
+
+            shim = types.SimpleNamespace(**{k: getattr(_real_threading, k) for k in ("Lock", "RLock", "Event", "Condition", "Semaphore", "current_thread", "get_ident")})
+            shim.Thread = _CapturedThread
+            saved = _im.threading
+            _im.threading = shim
+            try:
+                subs[i] = tr.subscribe(p[1], callback=lambda msg, i=i: delivered[i].append(msg.data))
+            finally:
+                _im.threading = saved
+            if len(captured) != 1 or not callable(captured[0]):
+                raise RuntimeError("harness: subscribe(callback=...) did not start exactly one thread (got %r)" % (captured,))
+            ls.add(captured[0])
+        elif p[0] == "close":
+            ls.add(lambda j=p[1]: subs[j].close())
+        elif p[0] == "pub":
             def pub(i=i, p=p):
                 for payload in p[2]:
                     tr.publish(p[1], (i, p[1], payload), ContextType({}))
@@ -460,9 +499,10 @@ def _replay_b(param, a):
 def obligations(tier: str) -> List[Ob]:
     P = 2 if tier == "quick" else 3
     names = list(SCENARIOS) if tier == "thorough" else ["2pub-new-channel", "2pub-existing-channel", "pub-new+sub-wildcard", "pub-existing+sub-exact", "2pub+sub-wildcard"]  # (quick: one 3-thread scenario for C14.S; "pub-other+sub-exact" and the other 3-thread ones are thorough-tier)
-    two_thread = [nm for nm in names if len(_threads(nm)) == 2]
+    names = names + [nm for nm in CB_SCENARIOS if nm not in names] if tier == "thorough" else names + ["cb-runner+close-prefilled"]
+    two_thread = [nm for nm in names if len(_threads(nm)) == 2 and nm not in CB_SCENARIOS]
     # C14.B decides every 2-thread scenario in seconds: the quick tier gives it all of them, C14.S keeps the original six
-    bnames = list(names) if tier == "thorough" else two_thread + ["2pub-new-channel-2msgs", "2sub-prefilled", "2sub-prefilled-1msg", "2pub-two-channels-repeat"]
+    bnames = [nm for nm in names if nm not in CB_SCENARIOS] if tier == "thorough" else two_thread + ["2pub-new-channel-2msgs", "2sub-prefilled", "2sub-prefilled-1msg", "2pub-two-channels-repeat"]
     params = []
     for nm in names:
         st = _steps(nm)
